@@ -32,6 +32,7 @@ package pool
 //@                                   && nonceOK == old(nonceOK) && nonceID == old(nonceID) && nonceVal == old(nonceVal)
 //@ ensures [signature-first] {C06} !authOK ==> p.Store.nonce == old(p.Store.nonce) && effects == old(effects)
 //@ ensures [one-effect] err == nil ==> effects == old(effects) + 1
+//@ ensures [a-verified-identity-is-a-full-node-id-or-address] {C15} err == nil ==> len(nodeID) >= 42
 //@ modifies authOK, authMethod, authID, authNonce, authArgs, nonceOK, nonceID, nonceVal, p.Store.nonce, effects
 
 // the address a connection reports for its remote end (the method of the anonymous interface connect asserts for)
@@ -50,7 +51,10 @@ package pool
 //@ safety on
 //@ requires authOK && authID == nodeID && nonceOK && nonceID == nodeID
 //@ requires !held(p.mu) && registryInv(p)
+//@ requires len(nodeID) >= 42 && store.regInv(p.Store)
+//@ ensures [registered-ids-are-verified-identities] {C15} store.regInv(p.Store)
 //@ ensures [errkind] !typeis(err, VerifyFailedError)
+//@ ensures [nobody-is-admitted-unjudged] {C03} err == nil ==> callcount("OnClient") == 1 && callarg("OnClient", 1)[0].ID == store.NodeID(nodeID)
 //@ ensures [response] {C15} err == nil ==> result != nil
 //@ ensures [unlocked] {C09 C10} !held(p.mu)
 //@ ensures [effects] effects >= old(effects)
@@ -162,6 +166,8 @@ package pool
 //@ safety on
 //@ requires !authOK && !nonceOK && !held(p.mu) && registryInv(p)
 //@ ensures [inv] {C09} registryInv(p)
+//@ requires store.regInv(p.Store)
+//@ ensures [registered-ids-are-verified-identities] {C15} store.regInv(p.Store)
 //@ ensures [authorised] {C04 C05 C06} effects != old(effects) ==> authorised("vipnode_connect", nodeID, nonce) && verifiedConnect(authArgs, req)
 //@ ensures [refused-error]    !(authOK && nonceOK) ==> typeis(err, VerifyFailedError)
 //@ ensures [refused-no-trace] !(authOK && nonceOK) ==> effects == old(effects) && p.Store.nonce == old(p.Store.nonce)
@@ -172,6 +178,8 @@ package pool
 //@ safety on
 //@ requires !authOK && !nonceOK && !held(p.mu) && registryInv(p)
 //@ ensures [inv] {C09} registryInv(p)
+//@ requires store.regInv(p.Store)
+//@ ensures [registered-ids-are-verified-identities] {C15} store.regInv(p.Store)
 //@ ensures [authorised] {C04 C05 C06} effects != old(effects) ==> authorised("vipnode_host", nodeID, nonce) && verifiedHost(authArgs, req)
 //@ ensures [refused-error]    !(authOK && nonceOK) ==> typeis(err, VerifyFailedError)
 //@ ensures [refused-no-trace] !(authOK && nonceOK) ==> effects == old(effects) && p.Store.nonce == old(p.Store.nonce)
@@ -182,6 +190,8 @@ package pool
 //@ safety on
 //@ requires !authOK && !nonceOK && !held(p.mu) && registryInv(p)
 //@ ensures [inv] {C09} registryInv(p)
+//@ requires store.regInv(p.Store)
+//@ ensures [registered-ids-are-verified-identities] {C15} store.regInv(p.Store)
 //@ ensures [authorised] {C04 C05 C06} effects != old(effects) ==> authorised("vipnode_client", nodeID, nonce) && verifiedClient(authArgs, req)
 //@ ensures [refused-error]    !(authOK && nonceOK) ==> typeis(err, VerifyFailedError)
 //@ ensures [refused-no-trace] !(authOK && nonceOK) ==> effects == old(effects) && p.Store.nonce == old(p.Store.nonce)
@@ -192,6 +202,7 @@ package pool
 //@ safety on
 //@ requires !authOK && !nonceOK && !held(p.mu) && registryInv(p)
 //@ ensures [inv] {C09} registryInv(p)
+//@ ensures [registers-nobody] {C15} p.Store.reg == old(p.Store.reg)
 //@ ensures [authorised] {C04 C05 C06} effects != old(effects) ==> authorised("vipnode_peer", nodeID, nonce) && verifiedPeer(authArgs, req)
 //@ ensures [refused-error]    !(authOK && nonceOK) ==> typeis(err, VerifyFailedError)
 //@ ensures [refused-no-trace] !(authOK && nonceOK) ==> effects == old(effects) && p.Store.nonce == old(p.Store.nonce)
@@ -210,12 +221,16 @@ package pool
 //@ safety on
 //@ callreq Manager.OnUpdate [bills-previous-record] {C02} : arg0 == old(p.Store.node[store.NodeID(nodeID)])
 //@ callreq Manager.OnUpdate [bills-tracked-peers] {C02 C11} : arg1 == active
+//@ callreq Manager.OnUpdate [bills-the-peers-tracked-after-this-update] {C02 C11} :
+//@        (forall q int :: off(arg1) <= q && q < off(arg1) + len(arg1) ==> p.Store.tracked[store.NodeID(nodeID)][elems(arg1)[q].ID] && elems(arg1)[q] == p.Store.node[elems(arg1)[q].ID])
+//@     && (forall k store.NodeID :: p.Store.tracked[store.NodeID(nodeID)][k] && p.Store.reg[k] ==> store.hasNode(arg1, k))
 //@ callreq disconnectPeers [cuts-off-tracked-peers] {C03} : arg1 == nodeID && arg2 == active
 //@ requires !authOK && !nonceOK && !held(p.mu) && registryInv(p)
 //@ ensures [inv] {C09} registryInv(p)
 //@ ensures [cut-off-asks-the-hosts] {C03} typeis(err, balance.LowBalanceError) ==> callcount("disconnectPeers") == 1
 //@        && callarg("disconnectPeers", 2)[0] == nodeID && callarg("disconnectPeers", 3)[0] == store.lastNodePeers
 //@ ensures [nobody-else-is-cut-off] {C03} !typeis(err, balance.LowBalanceError) ==> callcount("disconnectPeers") == 0
+//@ ensures [registers-nobody] {C15} p.Store.reg == old(p.Store.reg)
 //@ ensures [authorised] {C04 C05 C06} effects != old(effects) ==> authorised("vipnode_update", nodeID, nonce) && verifiedUpdate(authArgs, req)
 //@ ensures [refused-error]    !(authOK && nonceOK) ==> typeis(err, VerifyFailedError)
 //@ ensures [refused-no-trace] !(authOK && nonceOK) ==> effects == old(effects) && p.Store.nonce == old(p.Store.nonce)
